@@ -84,7 +84,7 @@ class Ctx:
         self.hooks[name] += n
 
     def check(self, n=1):
-        self.oracle_checks += n
+        self.oracle_checks += int(n)
 
     def ambiguous(self, n=1):
         self.n_ambiguous += n
